@@ -190,7 +190,13 @@ kind("TLSH", lambda: ctlsh.TLSH(128), [one("t(400B)", lambda t: t(TLSH_DATA)), o
 kind("Nilsimsa", lambda: cnil.Nilsimsa(), [one("n(abc)", lambda n: n(M1)), one("n(200B)", lambda n: n(M2)), one("n(empty)", lambda n: n(M0)),
                                             hist("update(xyz) unfinished", lambda n: n.update(b"xyz")), hist("update(200B);digest()", lambda n: n.update(M2).digest())],
      other=lambda: cnil.Nilsimsa(17))
-kind("AES", lambda: caes.AES(KEY16), cipher_calls(16), other=lambda: caes.AES(KEY24 + bytes(8)), expect=cexp(lambda b: RAES.enc(KEY16, b), lambda b: RAES.dec(KEY16, b), 16))
+# keys that are zero-extensions of one another have the same integer value: any table keyed by the value alone must keep them apart
+KEY16Z8, KEY16Z16 = KEY16 + bytes(8), KEY16 + bytes(16)
+kind("AES", lambda: caes.AES(KEY16), cipher_calls(16), other=lambda: caes.AES(KEY16Z16), expect=cexp(lambda b: RAES.enc(KEY16, b), lambda b: RAES.dec(KEY16, b), 16))
+kind("AES-192-zero-extended-twin-key", lambda: caes.AES(KEY16Z8), cipher_calls(16), other=lambda: caes.AES(KEY16),
+     expect=cexp(lambda b: RAES.enc(KEY16Z8, b), lambda b: RAES.dec(KEY16Z8, b), 16))
+kind("AES-256-zero-extended-twin-key", lambda: caes.AES(KEY16Z16), cipher_calls(16)[:4], other=lambda: caes.AES(KEY16Z8),
+     expect=cexp(lambda b: RAES.enc(KEY16Z16, b), lambda b: RAES.dec(KEY16Z16, b), 16))
 # keys that differ only in the top bit / only in the parity bit of every byte: any table keyed by a "normalised" key must keep them apart
 KEY8M, KEY8P = bytes(x ^ 0x80 for x in KEY8), bytes(x ^ 0x01 for x in KEY8)
 kind("DES", lambda: cdes.DES(KEY8), cipher_calls(8), other=lambda: cdes.DES(KEY8M), expect=cexp(lambda b: RDES.enc(KEY8, b), lambda b: RDES.dec(KEY8, b), 8))
